@@ -634,9 +634,12 @@ class Members:
     @_sp.forwards_to_method('me', emulate=True)
     def fwe(self, a, *args, **kwargs):
         return self.me(*args, **kwargs)
+class SubMembers(Members):
+    pass
 """
 # what the hook must print for members whose signature involves nothing that could fail
-SPHINX_EXPECT = {'Members.me': '(p, q=1)', 'Members.st': '(p, q=1)', 'Members.cl': '(p, q=1)'}
+SPHINX_EXPECT = {'Members.me': '(p, q=1)', 'Members.st': '(p, q=1)', 'Members.cl': '(p, q=1)',
+                 'SubMembers.me': '(p, q=1)', 'SubMembers.st': '(p, q=1)', 'SubMembers.cl': '(p, q=1)'}
 
 
 def shard_sphinx_module(arg):
@@ -657,7 +660,7 @@ def shard_sphinx_module(arg):
         check_sphinx('os', os, st, {'kind': 'sphinx', 'object': 'os'})
         for qual in ('undefined_name', 'type_error', 'zero_division', 'attribute_error', 'fine', 'forwards', 'K', 'K.method', 'K.cm',
                      'K.sm', 'K.__call__', 'instance', 'instance.method', 'no_such_attribute', 'Members', 'Members.me', 'Members.st',
-                     'Members.cl', 'Members.fw', 'Members.fwe'):
+                     'Members.cl', 'Members.fw', 'Members.fwe', 'SubMembers.me', 'SubMembers.st', 'SubMembers.cl', 'SubMembers.fw'):
             obj = mod
             try:
                 for a in qual.split('.'):
